@@ -506,7 +506,11 @@ func CheckC16(p *Pkg, e *Env, r *res.Result) {
 				// CORS preflight / undeclared method on a declared path
 				if op.PathItem.Op("OPTIONS") == nil {
 					req := httptest.NewRequest("OPTIONS", "http://h.example"+p.BasePath+concretePath(op.Template), nil)
-					if refmodel.Route(p.Doc, p.BasePath, "OPTIONS", req.URL.Path).Dispatch == nil {
+					// with cors on (and a CORS handler installed, as here) the path's own preflight
+					// answers, whatever other template could also match the path; with cors off a
+					// less specific template that declares OPTIONS may take the request (C03's
+					// method-fallback ambiguity): checked only when no template does
+					if p.Cfg.Cors && in.V.Elem().FieldByName("CORSHandler").IsValid() || refmodel.Route(p.Doc, p.BasePath, "OPTIONS", req.URL.Path).Dispatch == nil {
 						if !check("preflight-or-undeclared-method", k, req, nil) {
 							return
 						}
